@@ -277,6 +277,8 @@ fn families(a: &Args) -> Vec<Family> {
     if t {
         let und5 = || Pool::new(vec![SimpleFam::new(5..=5, false, false)]);
         v.push(pair_family("undirected-5-loopfree-pairs", true, und5(), und5(), 0, "every ordered pair of labelled undirected loop-free graphs on 5 nodes (1024 x 1024)".into()));
+        let und6 = || Pool::new(vec![SimpleFam::new(6..=6, false, false)]);
+        v.push(pair_family("undirected-4-into-6", true, und4(), und6(), 0, "every undirected loop-free graph on 4 nodes against every one on 6 nodes (subgraph embeddings)".into()));
         v.push(pair_family("undirected-4-into-5", true, und4(), und5(), 0, "every undirected loop-free graph on 4 nodes against every one on 5 nodes (subgraph embeddings)".into()));
         v.push(pair_family("directed-4-loopfree-pairs", true, dir4(), dir4(), 0, "every ordered pair of labelled loop-free digraphs on 4 nodes (4096 x 4096)".into()));
     }
